@@ -24,7 +24,13 @@ fn break_program(r: &mut Rng, text: &str) -> (String, Vec<String>) {
             let n = r.urange(2, 5);
             let at_def = lines.iter().position(|l| l.trim_start().starts_with("start:")).unwrap_or(0);
             for k in 0..n {
-                lines.insert(at_def, format!("macro mu_{}() -> jmp UM_{} <-", k, k));
+                // sometimes several undefined labels in one body: after the use has been expanded
+                // they all carry the position of that one use
+                if r.chance(40) {
+                    lines.insert(at_def, format!("macro mu_{}() -> jmp UM_{}a jne UM_{}b loop UM_{}c <-", k, k, k, k));
+                } else {
+                    lines.insert(at_def, format!("macro mu_{}() -> jmp UM_{} <-", k, k));
+                }
             }
             let start_at = start_at + n;
             let mut order: Vec<usize> = (0..n).collect();
